@@ -8,4 +8,14 @@ META = {
                 note=STD_NOTE),
     "C03": dict(text="Differential check of the real Get/List/Count read paths (backend + scanner + coder, sequencer thread running) against a reference MVCC model, after bounded symbolic histories driven through the real write API over a contract model of the storage engine; values, expected revisions, read revision and engine options are solver variables.",
                 note=STD_NOTE + " The storage engine is the contract model zzmodel.Store (adapters are C11's subject)."),
+    "C01": dict(text="The real Create/Update/Delete paths (backend + creator + coder + tso) run as interpreted threads over the contract store; gosym enumerates the interleavings of two clients' store operations and revision dealing within a preemption bound while values and expected revisions stay symbolic, and z3 decides for each path that successes form a chain under the reference semantics, that failures are justified by a state in flight and that the store equals the chain. Schedule-dependent counterexamples are replayed natively by forcing the recorded order at the store/TSO gate points.",
+                note=STD_NOTE),
+    "C05": dict(text="Sequential-client watch: the real notify/sequencer/ring/hub/Watch/processEvents code runs as interpreted threads; start revision, values and expected revisions are symbolic; at quiescence the delivered sequence is compared with the reference event log (kind, key, value, previous value and revision for deletes, order, exactly-once).",
+                note=STD_NOTE + " Channel capacities are the real ones; the ring holds 2 events."),
+    "C07": dict(text="After symbolic histories the real Compact/scanner code runs at a symbolic revision with a nondeterministic fault (error, unknown-applied, compactor dies) on any of its deletes; z3 shows that reads at every R' >= R and at latest equal the reference model, that out-of-range keys are byte-identical and that a further write keeps normal semantics.",
+                note=STD_NOTE),
+    "C08": dict(text="Compaction requests with unconstrained revisions are issued through the real Compact path; the stored record is asserted monotone and every unlimited/limited/streamed range read below the highest accepted revision must be refused.",
+                note=STD_NOTE),
+    "C13": dict(text="The contract store advertises partitions whose borders are Encode(name, symbolic revision); the real scan/adjustPartitionsBorders/worker/receiver code (worker goroutines interpreted) must give the same unlimited list, count and streamed range as the unpartitioned reference, each batch naming the read revision and exactly one terminator.",
+                note=STD_NOTE),
 }
